@@ -6,6 +6,10 @@ CONSTANTS
   Methods <- MidMethods
   Shardings <- FullShardings
   Codes <- QuickCodes
+  MeshDirs <- NoMesh
+  MeshNames <- NoMesh
+  Tables <- NoMesh
+  MeshRewritesInfo = "keepAll"
   CfgSpace <- MidCfg
   MaxLen = 1000
   AioForwardsMethod = TRUE
